@@ -1,5 +1,97 @@
 import QipVerif.Util.Proto
-/-! Driver stub (to be filled in by the owner of this model). -/
-open QipVerif.Proto
-def step (_line : String) : String := "bad-op"
+import QipVerif.Model.Vqa
+/-! Driver for the VQA bookkeeping model (C19).
+
+Blocks: `blocks=h:0:0,p:2:1,...` — `kind:nterms:initial`, kind ∈ h(am) u(nitary) n(ative) p(ham) f(unc).
+
+* `series layers=L blocks=..`                 → `ok j0,j1,...` (indices into `VQA.blocks`)
+* `nfree layers=L blocks=..`                  → `ok n`
+* `circuit layers=L blocks=.. nangles=m`      → `ok blk:native:arg;...`, `arg` = `-` (None) or the ids
+                                                 `a.b.c` of the angles in the slice (angle id = position)
+* `jac layers=L blocks=.. nangles=m idx=default|none|i,j,.. orig=0|1`
+                                              → `ok k:blk:start:n:term;...` | `err <kind>`
+* `prods n=N`                                 → `ok f=w0|w1|.. b=w0|w1|..` words over propagator ids
+* `modify n=N k=K`                            → `ok w` word with `X` at the replaced position
+-/
+open QipVerif QipVerif.Proto QipVerif.Vqa
+
+def parseBlock (s : String) : Option Block :=
+  match s.splitOn ":" with
+  | [k, t, i] =>
+    match (match k with
+      | "h" => some Kind.ham | "u" => some Kind.unitary | "n" => some Kind.native
+      | "p" => some Kind.pham | "f" => some Kind.func | _ => none), t.toNat?, i.toNat? with
+    | some kind, some nt, some ini => if ini ≤ 1 then some ⟨kind, nt, ini == 1⟩ else none
+    | _, _, _ => none
+  | _ => none
+
+def fBlocks? (fs : List String) : Option (List Block) :=
+  match field? fs "blocks" with
+  | none => none
+  | some s => (splitNE s ",").mapM parseBlock
+
+def errName : Err → String
+  | .angles => "angles" | .noangles => "noangles" | .funcderiv => "funcderiv"
+
+def showGate (g : CGate Nat) : String :=
+  s!"{g.blk}:{if g.native then 1 else 0}:" ++
+    (match g.arg with
+     | none => "-"
+     | some l => "[" ++ ".".intercalate (l.map toString) ++ "]")
+
+def showEntry (e : JEntry) : String := s!"{e.k}:{e.blk}:{e.start}:{e.n}:{e.term}"
+
+/-- words: `none` stands for the inserted `X` -/
+def showWord (w : List (Option Nat)) : String :=
+  ".".intercalate (w.map fun | none => "X" | some i => toString i)
+
+def step (line : String) : String :=
+  let fs := fields line
+  match fs.head? with
+  | some "series" =>
+    match fNat? fs "layers", fBlocks? fs with
+    | some L, some bs => if L = 0 then "err layers" else "ok " ++ showNats ((blockSeries bs L).map (·.1))
+    | _, _ => "bad-op"
+  | some "nfree" =>
+    match fNat? fs "layers", fBlocks? fs with
+    | some L, some bs => if L = 0 then "err layers" else s!"ok {freeParams bs L}"
+    | _, _ => "bad-op"
+  | some "circuit" =>
+    match fNat? fs "layers", fBlocks? fs, fNat? fs "nangles" with
+    | some L, some bs, some m =>
+      if L = 0 then "err layers" else
+      "ok " ++ ";".intercalate ((constructCircuit bs L (List.range m)).map showGate)
+    | _, _, _ => "bad-op"
+  | some "jac" =>
+    match fNat? fs "layers", fBlocks? fs, fNat? fs "nangles", fStr? fs "idx", fNat? fs "orig" with
+    | some L, some bs, some m, some idxs, some orig =>
+      if L = 0 then "err layers" else
+      let idx : Option (Option (List Int)) :=
+        if idxs == "default" then some none
+        else if idxs == "none" then some (some [])
+        else (intList? idxs).map some
+      match idx with
+      | none => "bad-op"
+      | some idx =>
+        match computeJac (orig == 1) bs L m idx with
+        | .ok es => "ok " ++ ";".intercalate (es.map showEntry)
+        | .error e => "err " ++ errName e
+    | _, _, _, _, _ => "bad-op"
+  | some "prods" =>
+    match fNat? fs "n" with
+    | some n =>
+      let ps : List (List (Option Nat)) := (List.range n).map (fun i => [some i])
+      let up := unitaryProducts (· ++ ·) [] ps
+      "ok f=" ++ "|".intercalate (up.1.map showWord) ++ " b=" ++ "|".intercalate (up.2.map showWord)
+    | none => "bad-op"
+  | some "modify" =>
+    match fNat? fs "n", fNat? fs "k" with
+    | some n, some k =>
+      if k < n then
+        let ps : List (List (Option Nat)) := (List.range n).map (fun i => [some i])
+        "ok " ++ showWord (modifyUnitary (· ++ ·) [] ps k [none]) ++ " full=" ++ showWord (fullProd (· ++ ·) [] ps)
+      else "err index"
+    | _, _ => "bad-op"
+  | _ => "bad-op"
+
 def main : IO Unit := serve step
